@@ -6,6 +6,7 @@ package graphs
 import (
 	"encoding/json"
 	"fmt"
+	"math"
 	"sort"
 	"strings"
 
@@ -116,6 +117,49 @@ type histCase struct {
 	Expect *fullState `json:"expect"`
 	IDs    []int64    `json:"ids"`
 	Absent int64      `json:"absent,omitempty"` // dense graphs: the weight that means "no edge"
+	Bind   string     `json:"bind,omitempty"`   // weight tokens bound to special float values, see parseBind
+}
+
+// The specification works with weight TOKENS (small integers).  A token is handed to gonum as the
+// float64 of its number, unless the replay argument bind= ("2:nan", "2:pinf,7:nan", ...) binds it to
+// NaN, +Inf or -Inf: the dense graphs document absent as "the weight returned for absent edges" and
+// take any float64 for init, self and absent, so the token that the model uses as AbsentW (or as a
+// self weight) may stand for NaN - an edge whose weight is NaN is then absent (RemoveEdge "removes
+// the edge" by storing absent, so an implementation has to treat NaN as the same value as NaN).
+// Weights that come back are compared by sameF: a returned NaN equals a token bound to NaN.
+func parseBind(s string) (map[int64]float64, error) {
+	if s == "" {
+		return nil, nil
+	}
+	m := map[int64]float64{}
+	for _, kv := range strings.Split(s, ",") {
+		var tok int64
+		var name string
+		if _, err := fmt.Sscanf(strings.Replace(kv, ":", " ", 1), "%d %s", &tok, &name); err != nil {
+			return nil, fmt.Errorf("bad bind %q: %v", kv, err)
+		}
+		switch name {
+		case "nan":
+			m[tok] = math.NaN()
+		case "pinf":
+			m[tok] = math.Inf(1)
+		case "ninf":
+			m[tok] = math.Inf(-1)
+		default:
+			return nil, fmt.Errorf("bad bind %q", kv)
+		}
+	}
+	return m, nil
+}
+
+func sameF(a, b float64) bool { return a == b || (math.IsNaN(a) && math.IsNaN(b)) }
+
+// f is the float64 value a weight token stands for.
+func (l *live) f(tok int64) float64 {
+	if v, ok := l.bind[tok]; ok {
+		return v
+	}
+	return float64(tok)
 }
 
 func keyOf(s *stateRec) string {
@@ -204,6 +248,7 @@ type live struct {
 	// for the node object of each id in the state being checked (nil: not tracked)
 	selfV, absentV float64
 	obj            map[int64]int64
+	bind           map[int64]float64 // weight tokens bound to NaN / +Inf / -Inf (parseBind)
 }
 
 func newLive(k *kind) *live {
@@ -298,7 +343,7 @@ func (l *live) apply(o opRec, liveNodes map[int64]bool) (out core.Outcome, probl
 		u, v := l.real(o.U), l.real(o.V)
 		out = core.Call(func() {
 			if l.k.weighted {
-				l.g.(interface{ SetWeightedEdge(graph.WeightedEdge) }).SetWeightedEdge(simple.WeightedEdge{F: simple.Node(u), T: simple.Node(v), W: float64(o.W)})
+				l.g.(interface{ SetWeightedEdge(graph.WeightedEdge) }).SetWeightedEdge(simple.WeightedEdge{F: simple.Node(u), T: simple.Node(v), W: l.f(o.W)})
 			} else {
 				l.g.(interface{ SetEdge(graph.Edge) }).SetEdge(simple.Edge{F: simple.Node(u), T: simple.Node(v)})
 			}
@@ -310,9 +355,9 @@ func (l *live) apply(o opRec, liveNodes map[int64]bool) (out core.Outcome, probl
 		if l.g != nil {
 			return out, "Construct on a graph that exists"
 		}
-		l.selfV = float64(o.Self)
+		l.selfV = l.f(o.Self)
 		var g graph.Graph
-		out = core.Call(func() { g = construct(l.k.directed, o.Kind, o.N, o.Ord, float64(o.Init), l.selfV, l.absentV) })
+		out = core.Call(func() { g = construct(l.k.directed, o.Kind, o.N, o.Ord, l.f(o.Init), l.selfV, l.absentV) })
 		if !out.Panicked {
 			l.g = g
 		}
@@ -325,7 +370,7 @@ func (l *live) apply(o opRec, liveNodes map[int64]bool) (out core.Outcome, probl
 			if o.Op == "SetUnitEdge" {
 				l.g.(interface{ SetEdge(graph.Edge) }).SetEdge(simple.Edge{F: pnode{u, o.P}, T: pnode{v, o.P}})
 			} else {
-				l.g.(interface{ SetWeightedEdge(graph.WeightedEdge) }).SetWeightedEdge(simple.WeightedEdge{F: pnode{u, o.P}, T: pnode{v, o.P}, W: float64(o.W)})
+				l.g.(interface{ SetWeightedEdge(graph.WeightedEdge) }).SetWeightedEdge(simple.WeightedEdge{F: pnode{u, o.P}, T: pnode{v, o.P}, W: l.f(o.W)})
 			}
 		})
 	default:
@@ -541,7 +586,7 @@ func (l *live) checkEdgeValue(what string, e graph.Edge, evs map[edgeKey]evRec, 
 			return
 		}
 		for call := 1; call <= 2; call++ {
-			if w := wx.Weight(); w != float64(want) {
+			if w := wx.Weight(); !sameF(w, l.f(want)) {
 				bad("%s.Weight() call %d = %v, model %d", name, call, w, want)
 			}
 		}
@@ -683,18 +728,18 @@ func (l *live) checkState(st *fullState, ids []int64) []string {
 				case "self":
 					ww, wok = l.selfV, true
 				case "edge":
-					ww, wok = float64(exp.W), true
+					ww, wok = l.f(exp.W), true
 				default:
 					ww, wok = l.absent(), false
 				}
-				if w != ww || okw != wok {
+				if !sameF(w, ww) || okw != wok {
 					bad("Weight(%d,%d) = (%v,%v), model (%v,%v)", mu, mv, w, okw, ww, wok)
 				}
 				we := wg.WeightedEdge(u, v)
 				if (we != nil) != heft[k] {
 					bad("WeightedEdge(%d,%d) non-nil = %v, model %v", mu, mv, we != nil, heft[k])
 				}
-				if we != nil && exp.K == "edge" && we.Weight() != float64(exp.W) {
+				if we != nil && exp.K == "edge" && !sameF(we.Weight(), l.f(exp.W)) {
 					bad("WeightedEdge(%d,%d).Weight() = %v, model %v", mu, mv, we.Weight(), exp.W)
 				}
 				if we != nil {
@@ -818,7 +863,7 @@ func (l *live) checkState(st *fullState, ids []int64) []string {
 			w, ok := wantE[k]
 			if !ok {
 				bad("WeightedEdges() contains %v which the model does not", k)
-			} else if e.(graph.WeightedEdge).Weight() != float64(w) {
+			} else if !sameF(e.(graph.WeightedEdge).Weight(), l.f(w)) {
 				bad("WeightedEdges() weight of %v = %v, model %v", k, e.(graph.WeightedEdge).Weight(), w)
 			} else {
 				l.checkEdgeValue(fmt.Sprintf("WeightedEdges() item %v", k), e, evs, st.Ev != nil, &errs)
@@ -837,9 +882,15 @@ func runHistory(c *histCase, sum *core.Summary) {
 	}
 	l := newLive(k)
 	liveNodes := map[int64]bool{}
+	if b, err := parseBind(c.Bind); err != nil {
+		sum.Fail("harness:bad-bind", err.Error(), c)
+		return
+	} else {
+		l.bind = b
+	}
 	if k.dense > 0 {
 		// dense graphs: model ids are the real ids; the history starts with the constructor call
-		l.absentV = float64(c.Absent)
+		l.absentV = l.f(c.Absent)
 		for _, m := range c.IDs {
 			l.real(m)
 		}
@@ -885,7 +936,14 @@ func replaySimple(in *core.Lines, args []string, seed int64, sum *core.Summary) 
 	var types []string
 	ids := []int64{}
 	var absent int64
+	bind := "" // weight tokens bound to NaN / +Inf / -Inf (parseBind)
+	// views=1: check only the wrapper views (views.go), once per reachable state instead of every
+	// query once per transition
+	viewsOnly := false
 	for _, a := range args {
+		if a == "views=1" {
+			viewsOnly = true
+		}
 		if strings.HasPrefix(a, "types=") {
 			types = strings.Split(a[6:], ",")
 		}
@@ -895,8 +953,16 @@ func replaySimple(in *core.Lines, args []string, seed int64, sum *core.Summary) 
 		if strings.HasPrefix(a, "absent=") {
 			fmt.Sscan(a[7:], &absent)
 		}
+		if strings.HasPrefix(a, "bind=") {
+			bind = a[5:]
+		}
+	}
+	if _, err := parseBind(bind); err != nil {
+		return err
 	}
 	states := map[string]*fullState{}
+	views := map[string]*viewState{}
+	var viewOrder []string
 	var trans []*transRec
 	nh := 0
 	for {
@@ -912,11 +978,37 @@ func replaySimple(in *core.Lines, args []string, seed int64, sum *core.Summary) 
 		}
 		switch probe.K {
 		case "s":
+			if viewsOnly {
+				continue
+			}
 			st := new(fullState)
 			if err := json.Unmarshal(b, st); err != nil {
 				return err
 			}
 			states[keyOf(&stateRec{Nodes: st.Nodes, Edges: st.Edges, Built: st.Built, Obj: st.Obj})] = st
+		case "v":
+			if !viewsOnly {
+				continue
+			}
+			v := new(viewState)
+			if err := json.Unmarshal(b, v); err != nil {
+				return err
+			}
+			k := keyOf(&stateRec{Nodes: v.Nodes, Edges: v.Edges, Built: v.Built, Obj: v.Obj})
+			views[k] = v
+			viewOrder = append(viewOrder, k)
+		case "vh":
+			c := new(viewCase)
+			if err := json.Unmarshal(b, c); err != nil {
+				return err
+			}
+			if c.Bind == "" {
+				c.Bind = bind
+			}
+			runViewHistory(c, sum)
+			sum.Cases++
+			sum.Nontrivial++
+			nh++
 		case "t":
 			t := new(transRec)
 			if err := json.Unmarshal(b, t); err != nil {
@@ -927,6 +1019,9 @@ func replaySimple(in *core.Lines, args []string, seed int64, sum *core.Summary) 
 			c := new(histCase)
 			if err := json.Unmarshal(b, c); err != nil {
 				return err
+			}
+			if c.Bind == "" {
+				c.Bind = bind
 			}
 			runHistory(c, sum)
 			sum.Cases++
@@ -969,6 +1064,32 @@ func replaySimple(in *core.Lines, args []string, seed int64, sum *core.Summary) 
 			}
 		}
 	}
+	if viewsOnly {
+		// every reachable state once, reached by its shortest real history
+		for vi, sk := range viewOrder {
+			ops, ok := path[sk]
+			if !ok {
+				return fmt.Errorf("no history reaches the state %s", sk)
+			}
+			ops = append([]opRec{}, ops...)
+			if a := alts[root[sk]]; len(ops) > 0 && len(a) > 1 {
+				ops[0] = a[(vi+int(seed%1000))%len(a)]
+			}
+			for _, ty := range types {
+				c := &viewCase{K: "vh", Type: ty, Ops: ops, Expect: views[sk], IDs: ids, Absent: absent, Bind: bind}
+				runViewHistory(c, sum)
+				sum.Cases++
+				if len(views[sk].Nodes) > 1 {
+					sum.Nontrivial++
+				}
+				if sum.Cases%997 == 1 {
+					sum.Sample(map[string]any{"type": ty, "history": ops, "views_of": stateRec{Nodes: views[sk].Nodes, Edges: views[sk].Edges}})
+				}
+			}
+		}
+		sum.Count("model_states", len(views))
+		return nil
+	}
 	distinct := map[string]bool{}
 	for ti, t := range trans {
 		sk, tk := keyOf(&t.S), keyOf(&t.T)
@@ -983,7 +1104,7 @@ func replaySimple(in *core.Lines, args []string, seed int64, sum *core.Summary) 
 			ops[0] = a[(ti+int(seed%1000))%len(a)]
 		}
 		for _, ty := range types {
-			c := &histCase{K: "h", Type: ty, Ops: ops, Out: t.Out, Expect: exp, IDs: ids, Absent: absent}
+			c := &histCase{K: "h", Type: ty, Ops: ops, Out: t.Out, Expect: exp, IDs: ids, Absent: absent, Bind: bind}
 			runHistory(c, sum)
 			sum.Cases++
 			if sk != tk || t.Out == "panic" {
